@@ -16,7 +16,7 @@ def run(ctx):
     res = ctx.prove()
     n = 5000 if ctx.quick() else 60000
     tc.run_stream(ctx, "batch-broadcast-kernels", OPS, n, backend="naive")
-    summ = tc.optional_part(ctx, "progcheck", "run_mode", "batch", 200 if ctx.quick() else 4000)
+    summ = tc.optional_part(ctx, "progcheck", "run_mode", "batch", 3000 if ctx.quick() else 40000)
     if summ is not None:
         ctx.cov["program_level_batch_law"] = summ
     ctx.cov["rule"] = ("cases = kernels that take several operands with every combination of batch B vs 1 (and incompatible batches, which must be rejected) on exact integer data vs the model; "
